@@ -134,7 +134,8 @@ var c17ZooExprs = []string{`A == 1`, `A != 1`, `A == 2 or s == "a"`, `not (A == 
 	`A == 1 and A == 1`, `A == 1 or A == 1`, `A == 1 and A != 1`, `A == 1 and (A == 1 or s == "a")`, `s matches "^a$" and s matches "^A$"`, `s matches "a" or s matches "(?i)A"`}
 
 var c17NonContainers = []zooEntry{{"nil", nil}, {"int", 5}, {"string", "abc"}, {"bool", true}, {"struct", c17Elem{A: 1}}, {"ptr-to-slice", &[]c17Elem{{A: 1}}}, {"ptr-to-map", &map[string]c17Elem{"x": {A: 1}}},
-	{"ptr-to-struct", &c17Elem{A: 1}}, {"func", func() {}}, {"chan", make(chan int)}, {"float", 1.5}, {"nil-ptr-slice", (*[]int)(nil)}, {"typed-nil-iface", interface{}((*c17Elem)(nil))}}
+	{"ptr-to-struct", &c17Elem{A: 1}}, {"ptr-to-array", &[2]c17Elem{{A: 1}, {A: 2}}}, {"ptr-to-empty-array", &[0]c17Elem{}}, {"ptr-to-ptr-to-slice", func() interface{} { s := []c17Elem{{A: 1}}; p := &s; return &p }()},
+	{"ptr-to-named-slice", &c17Slice{{A: 1}}}, {"ptr-to-[]int", &[]int{1}}, {"unsafe-pointer-free uintptr", uintptr(1)}, {"complex", complex(1, 1)}, {"interface-holding-ptr-to-array", interface{}(&[1]int{1})}, {"func", func() {}}, {"chan", make(chan int)}, {"float", 1.5}, {"nil-ptr-slice", (*[]int)(nil)}, {"typed-nil-iface", interface{}((*c17Elem)(nil))}}
 
 // c17Check is the oracle for one (expression, container) pair.
 func c17Check(c *mon.Ctx, text string, in interface{}, cname string, describe func() string) {
@@ -335,9 +336,51 @@ func c17Check(c *mon.Ctx, text string, in interface{}, cname string, describe fu
 		}
 		c.Count("storage_independence_checked")
 	}
+	// the caller owns the result: writing INTO it (an entry that was not
+	// selected, an appended element) must not show in a later result
+	if out.IsValid() {
+		switch out.Kind() {
+		case reflect.Map:
+			for _, e := range elems {
+				if !out.MapIndex(e.k).IsValid() {
+					out.SetMapIndex(e.k, e.v)
+					break
+				}
+			}
+		case reflect.Slice:
+			if len(elems) > 0 {
+				out = reflect.Append(out, elems[0].v)
+				if out.Len() > 0 {
+					out.Index(0).Set(elems[len(elems)-1].v)
+				}
+			}
+		}
+	}
 	// idempotence and E / not(E) partition
 	x1 := execute(f, in)
 	if x1.err == nil && x1.panic == "" {
+		o1 := reflect.ValueOf(x1.out)
+		same := o1.IsValid() && o1.Len() == len(keep)
+		if same {
+			for i, e := range keep {
+				var got reflect.Value
+				if rv.Kind() == reflect.Map {
+					got = o1.MapIndex(e.k)
+				} else {
+					got = o1.Index(i)
+				}
+				if !got.IsValid() || !reflect.DeepEqual(got.Interface(), e.v.Interface()) {
+					same = false
+				}
+			}
+		}
+		if !same {
+			dd := d()
+			dd["second_result"] = clip(fmt.Sprintf("%#v", x1.out), 600)
+			c.Violation("C17 second-result-differs container="+cname, "a second Execute on the same input, after the caller wrote into the first result, did not return exactly the selected elements", dd)
+			return
+		}
+		c.Count("second_call_after_result_mutation_checked")
 		x2 := execute(f, x1.out)
 		if x2.panic != "" || x2.err != nil || !reflect.DeepEqual(x1.out, x2.out) {
 			c.Violation("C17 not-idempotent container="+cname, "filtering the result again changed it", d())
@@ -399,6 +442,12 @@ func c17Big(c *mon.Ctx, n int) {
 		// the other way round
 		fail2 := map[int]interface{}{n/16 - 1: []interface{}{1}, n - 2: nil, n / 2: nil, n/4 + 1: nil}
 		c17Check(c, `A == 1 or A == 2`, mk(fail2), fmt.Sprintf("long-list-%d", n), desc("failing: a list as A at n/16-1, missing keys later"))
+		// ... and straight after a call that failed half-way: a call that does
+		// not fail (scratch state left behind by the failed call must not leak)
+		c17Check(c, `A == 2`, mk(nil), fmt.Sprintf("long-list-%d", n), desc("no failing element, right after a failed call"))
+		if rep == 1 {
+			c17Check(c, `A == 0`, mk(nil)[:n/2+1], fmt.Sprintf("long-list-%d", n), desc("shorter list, right after a failed call"))
+		}
 	}
 	// as a map
 	m := map[int]map[string]interface{}{}
@@ -538,7 +587,7 @@ func init() {
 		Run: c17Run,
 		Required: func(tier string) []string {
 			return []string{"zoo_containers", "non_containers", "nil_filter_identity_checked", "random_containers", "outcome:error", "outcome:selected", "container:slice", "container:array", "container:map", "named_slice_type_checked",
-				"storage_independence_checked", "aliasing_checked", "filter_history_steps", "idempotence_checked", "partition_checked", "long_list_scenarios", "first_error_identity_checked", "first_error_identity_checked_among_different_errors", "kept:0-of-3", "kept:1-of-3", "kept:2-of-3", "kept:3-of-3"}
+				"storage_independence_checked", "aliasing_checked", "filter_history_steps", "idempotence_checked", "partition_checked", "second_call_after_result_mutation_checked", "long_list_scenarios", "first_error_identity_checked", "first_error_identity_checked_among_different_errors", "kept:0-of-3", "kept:1-of-3", "kept:2-of-3", "kept:3-of-3"}
 		},
 	})
 }
